@@ -22,6 +22,8 @@ import (
 
 	"github.com/google/osv-scalibr/extractor/filesystem"
 	"github.com/google/osv-scalibr/extractor/filesystem/simplefileapi"
+	"github.com/google/osv-scalibr/inventory"
+	"github.com/google/osv-scalibr/stats"
 	scalibrfs "github.com/google/osv-scalibr/fs"
 )
 
@@ -31,6 +33,8 @@ type Result struct {
 	K       int64    `json:"k"`
 	Out     string   `json:"out"` // ok | error | panic
 	NPkgs   int      `json:"np,omitempty"`
+	Engine  bool     `json:"eng,omitempty"` // the case also went through filesystem.Run
+	EngPkgs int      `json:"engp,omitempty"`
 	Sha     string   `json:"sha"`
 	Size    int      `json:"size"`
 	Ops     []int    `json:"ops,omitempty"`
@@ -207,6 +211,9 @@ func (wk *worker) exec(c *Case) (res Result) {
 			}
 			res.Stack, res.Top = parseStack(debug.Stack())
 			res.NPkgs = 0
+			if res.Where == "EngineConsume" {
+				res.Top = "engine consumption of the Extract result (filesystem.runExtractor)"
+			}
 		} else {
 			res.Where = ""
 		}
@@ -264,6 +271,44 @@ func (wk *worker) exec(c *Case) (res Result) {
 			res.Leaked = n
 		}
 	}
+	// the result is consumed the way filesystem.runExtractor consumes it (it does so whether or not err is nil):
+	// every returned package is dereferenced (r.Extractor = ex; r.Locations rewritten) and the inventory appended
+	res.Where = "EngineConsume"
+	for i, p := range inv.Packages {
+		if p == nil {
+			panic(fmt.Sprintf("Extract returned a nil *Package at inventory.Packages[%d] (of %d, err = %v): filesystem.runExtractor dereferences every returned "+
+				"package (r.Extractor = ex) without recover, so the whole scan panics", i, len(inv.Packages), err))
+		}
+	}
+	if !inv.IsEmpty() {
+		for _, p := range inv.Packages {
+			p.Extractor = ex
+			locs := make([]string, 0, len(p.Locations))
+			for _, l := range p.Locations {
+				locs = append(locs, filepath.Join("/scanroot", l))
+			}
+			p.Locations = locs
+			_, _ = p.Name, p.Version
+		}
+		var total inventory.Inventory
+		total.Append(inv)
+	}
+	// a sample goes through the real engine: filesystem.Run over a tree that holds the file ("the scan completes")
+	if !x.DirectFS && (c.K < int64(len(x.Det)+len(x.Sys)) || c.K%16 == 0) {
+		res.Where = "EngineRun"
+		fsys := fstest.MapFS{c.Path: &fstest.MapFile{Data: c.Data, Mode: c.Mode}}
+		if c.HasOSRel {
+			fsys["etc/os-release"] = &fstest.MapFile{Data: c.OSRel, Mode: 0o644}
+		}
+		for p, d := range c.Siblings {
+			fsys[p] = &fstest.MapFile{Data: d, Mode: 0o644}
+		}
+		einv, _, _ := filesystem.Run(context.Background(), &filesystem.Config{
+			Extractors: []filesystem.Extractor{x.Init()}, ScanRoots: []*scalibrfs.ScanRoot{{FS: fsys, Path: ""}}, Stats: stats.NoopCollector{}})
+		res.Engine = true
+		res.EngPkgs = len(einv.Packages)
+	}
+	res.Where = "Extract"
 	if err != nil {
 		res.Out = "error"
 		res.Err = err.Error()
